@@ -39,7 +39,7 @@ CFG = {
     "stages": ["go:gen", "go:impl", "lean:judge"],
     "pregen": pregen,
     "theorems": [T + n for n in ["bellmanFord_correct", "pickMin_spec", "astar_optimal", "consistent_zero", "heuristic_consistent",
-                                 "polyLen_ge_chord", "euclidR_tri", "C19_route", "C19_unreachable", "build_wf", "C19_built", "C19_history", "C19_gap_not_minimal"]],
+                                 "polyLen_ge_chord", "euclidR_tri", "C19_route", "C19_unreachable", "build_wf", "C19_built", "C19_history", "C19_gap_not_minimal", "C19_gap_fixed"]],
     "trusted_base": [
         "Lean 4.33.0 kernel; axioms of every theorem printed by #print axioms must be within {propext, Classical.choice, Quot.sound}",
         "model lean/GeomV/C19/Model.lean is tied to /repo/route/route.go and to gonum v0.9.3 graph/path.AStar by the correspondence run on every check "
